@@ -232,7 +232,11 @@ var authors = []string{hex64('a', 1), hex64('b', 2), hex64('c', 3), hex64('d', 4
 func eventID(n int) string { return hex64('e', n) }
 func sig128(n int) string  { return fmt.Sprintf("%0128x", n) }
 
-var kindsAll = []int64{1, 1, 7, 4, 0, 3, 10002, 20001, 30023, 30023, 30024, 5}
+// the usual kinds (three times each) and the two sides of every class boundary of NIP-01 (once each)
+var kindsAll = []int64{1, 1, 7, 4, 0, 3, 10002, 20001, 30023, 30023, 30024, 5,
+	1, 1, 7, 4, 0, 3, 10002, 20001, 30023, 30023, 30024, 5,
+	1, 1, 7, 4, 0, 3, 10002, 20001, 30023, 30023, 30024, 5,
+	2, 9999, 10000, 19999, 20000, 29999, 30000, 39999, 40000, 65535}
 var dvals = []string{"", "x", "y", "x:y"}
 var tagVals = []string{"v1", "v2", "v3", ""}
 var tagNames = []string{"e", "p", "t", "a", "d", "E", "zz"}
